@@ -1,9 +1,63 @@
-import G3D.Proofs.Volume
-/-! # C14 — shape builders  (partial; extended by G3D/Proofs/Builders when present)
-    Available now: the measure theory the closed forms rest on (vector areas of a closed surface cancel; the pyramid-sum
-    volume is reference independent) — see C06.  Counts, frame selection and on-surface statements: G3D/Proofs/Builders. -/
+import G3D.Proofs.Builders
+import G3D.Proofs.BuildersReal
+import G3D.Proofs.CosSqBound
+/-! # C14 — shape builders  (partial: Sphere volume / convexity and the closed-form AREAS of the round shapes are not proved)
+    Three layers (the vertices of the round shapes are irrational, so they never pass through the rational constructors):
+    (i)  combinatorial skeletons of the face lists exactly as the Python builds them, with the flips the ConvexPolyhedron
+         constructor applies: vertex / edge / face counts, Euler, every edge on exactly two faces, consistent orientation —
+         for every n in 3..24 and (n1, n2) in 3..12 × 2..5 by kernel evaluation of the whole finite table, and for EVERY n ≥ 3
+         for Circle / Cylinder / Cone;
+    (ii) the frame selection of `get_circle_point_list` over rational directions with the threshold cos²(SMALL_ANGLE) abstracted
+         to any c ∈ [1/2, 1): a base vector is always found (the `raise` is dead) and is never parallel to the normal — the D8
+         defect (normal anti-parallel to x) is exactly the case this excludes;
+    (iii) over ℝ: every generated vertex lies on the specified circle / cylinder / cone / sphere, consecutive vertices are one
+         equal angular step apart, Sphere rings sit at equal latitude steps, the polygons are convex, and the volumes of Cylinder
+         and Cone equal the closed forms n/2·r²·sin(2π/n)·|h| (resp. /3); exact rational Parallelogram / Parallelepiped. -/
 namespace G3D.Props.C14
-open G3D V3
-theorem closed_surface_vector_area_zero (fs : List (List V3)) (hc : ClosedSurface fs) :
-    vsum (fs.map vecArea2) = zero := closed_vecArea_zero fs hc
+open G3D V3 G3D.Builders
+
+/-! ### (i) counts -/
+theorem circle_counts (n : Nat) (h3 : 3 ≤ n) :
+    vertexCount (circleFaces n) = n ∧ faceCount (circleFaces n) = 1 ∧ Simple (circleFaces n) ∧
+      (Builders.dirEdges (circleFaces n)).length = n := circle_skeleton_general n h3
+/-- … with the undirected edge count over the property's range 3..24 (finite table) -/
+theorem circle_counts_table (n : Nat) (h3 : 3 ≤ n) (h24 : n ≤ 24) :
+    vertexCount (circleFaces n) = n ∧ edgeCount (circleFaces n) = n ∧ faceCount (circleFaces n) = 1 ∧ Simple (circleFaces n) :=
+  circle_skeleton n h3 h24
+theorem cylinder_counts (n : Nat) (h3 : 3 ≤ n) :
+    vertexCount (cylinderFaces n) = 2 * n ∧ edgeCount (cylinderFaces n) = 3 * n ∧
+      faceCount (cylinderFaces n) = n + 2 ∧ Euler (cylinderFaces n) ∧ Simple (cylinderFaces n) ∧
+      ClosedUndir (cylinderFaces n) ∧ ClosedDir (cylinderOriented n) := cylinder_skeleton_general n h3
+theorem cone_counts (n : Nat) (h3 : 3 ≤ n) :
+    vertexCount (coneFaces n) = n + 1 ∧ edgeCount (coneFaces n) = 2 * n ∧
+      faceCount (coneFaces n) = n + 1 ∧ Euler (coneFaces n) ∧ Simple (coneFaces n) ∧
+      ClosedUndir (coneFaces n) ∧ ClosedDir (coneOriented n) := cone_skeleton_general n h3
+/-- Sphere over the property's whole range (finite table, `decide +kernel`): 2·n2 − 1 rings of n1 points and two poles -/
+theorem sphere_counts (n1 n2 : Nat) (h3 : 3 ≤ n1) (h12 : n1 ≤ 12) (h2 : 2 ≤ n2) (h5 : n2 ≤ 5) :
+    vertexCount (sphereFaces n1 n2) = n1 * (2 * n2 - 1) + 2 ∧ edgeCount (sphereFaces n1 n2) = n1 * (4 * n2 - 1) ∧
+      faceCount (sphereFaces n1 n2) = 2 * n1 * n2 ∧ Euler (sphereFaces n1 n2) ∧ Simple (sphereFaces n1 n2) ∧
+      ClosedUndir (sphereFaces n1 n2) ∧ ClosedDir (sphereOriented n1 n2) := sphere_skeleton n1 n2 h3 h12 h2 h5
+theorem parallelepiped_counts :
+    vertexCount parallelepipedFaces = 8 ∧ edgeCount parallelepipedFaces = 12 ∧ faceCount parallelepipedFaces = 6 ∧
+      Euler parallelepipedFaces ∧ Simple parallelepipedFaces ∧ ClosedUndir parallelepipedFaces ∧
+      ClosedDir parallelepipedOriented := parallelepiped_skeleton
+
+/-! ### (ii) frame selection -/
+theorem frame_always_defined (c : Rat) (hc1 : 1 / 2 ≤ c) (hc2 : c < 1) (n : V3) (hn : n ≠ zero) :
+    ∃ b, baseVector c n = some b ∧ (b = ex ∨ b = ey) ∧ cross n b ≠ zero ∧ V3.parallel n b = false :=
+  frame_defined c hc1 hc2 n hn
+theorem frame_is_orthogonal (n b : V3) (hb : cross n b ≠ zero) :
+    dot (frameW1 n b) n = 0 ∧ dot (frameW2 n b) n = 0 ∧ dot (frameW1 n b) (frameW2 n b) = 0 ∧
+      normSq (frameW2 n b) = normSq n * normSq (frameW1 n b) ∧ frameW1 n b ≠ zero ∧
+      cross (frameW1 n b) (frameW2 n b) = smul (normSq (frameW1 n b)) n := frame_orthogonal n b hb
+/-- a direction cannot be close to both the x and the y axis -/
+theorem not_near_both_axes (n : V3) (hn : n ≠ zero) : cosSqVec n ⟨1,0,0⟩ + cosSqVec n ⟨0,1,0⟩ ≤ 1 := cosSq_xy_le_one n hn
+
+/-! ### exact rational shapes -/
+theorem parallelogram_area (p a b : V3) : normSq (vecArea2 (parallelogramPts p a b)) = 4 * normSq (cross a b) :=
+  parallelogram_area_sq p a b
+/-- Parallelepiped volume = |det(v1, v2, v3)| (six times, in the surface-integral form; any reference point) -/
+theorem parallelepiped_volume_is_det (p v1 v2 v3 q : V3) (hd : det3 v1 v2 v3 ≠ 0) :
+    vol6 (((ppFacesCoded p v1 v2 v3).map (orientOut (ppCentre p v1 v2 v3))).map Prod.snd) q = 6 * absQ (det3 v1 v2 v3) :=
+  parallelepiped_volume p v1 v2 v3 q hd
 end G3D.Props.C14
